@@ -1,6 +1,6 @@
 SPECIFICATION Spec
 CONSTANTS
-  MaxCalls = 3
+  MaxCalls = 2
 INVARIANT ConformingNeverBlamed
 INVARIANT StaleBlamedOnlyWhenWrong
 INVARIANT FaultyBlamedOnlyWhenWrong
